@@ -1078,8 +1078,10 @@ fn space_case(st: &mut Stats, rng: &mut Rng) {
     st.next_case();
     let n = match rng.below(10) { 0 => 2, 1 => 3, 2 => MAXLEN, _ => rng.usize(2, MAXLEN) };
     let k = 2f64.powi(rng.int(-60, 60) as i32);
-    let (a, b) = match rng.below(7) {
+    let (a, b) = match rng.below(8) {
         0 => (rng.int(-9, 9) as f64, rng.int(-9, 9) as f64),
+        // end points only a few ulps apart: the node spacing is comparable to the rounding of the end points
+        7 => { let x = if rng.bool() { rng.sym() * k } else { rng.sym() }; let d = rng.int(1, 200); let y = f64::from_bits((x.to_bits() as i64 + d) as u64); if rng.bool() { (x, y) } else { (y, x) } }
         1 => (rng.sym(), rng.sym()),
         2 => (rng.sym() * k, rng.sym() * k),
         3 => { let x = rng.sym() * k; (x, x) }
